@@ -170,6 +170,7 @@ def run(chk):
         c = K.register_contract(f); chk.prove(c); chk.canary(c)
     c = KC.validate_type_contract(); chk.prove(c); chk.canary(c)
     from contracts import parsing as KPI
+    c = KC.reference_clean_contract(); chk.prove(c)       # references to registered types are resolved under the property's own spec version (version scoping of registrations)
     c = KPI.init_prefix_contract(); chk.prove(c)          # the extensions scan: every registered toplevel-property-extension entry counts, whatever its position
     for ob in purity_obligations(SRC_ROOT, ['stix2/registry.py::class_for_type'], allow=('STIX2_OBJ_MAPS',)) + purity_obligations(SRC_ROOT, ['stix2/properties.py::_validate_type', 'stix2/registration.py::_validate_props',
                                             'stix2/registration.py::_validate_ref_props', 'stix2/registration.py::_register_object', 'stix2/registration.py::_register_observable',
